@@ -87,7 +87,9 @@ class Var:
       mode "ev"    by reference AFTER a by-value parameter: set(pad: Expr, ref: ScratchVar, val: Expr); pad is a small
                    valid slot number (0..7), so a wrong frame cell silently designates another variable
       mode "mix4"  (Expr, ScratchVar, Expr, ScratchVar): a second by-reference variable (automatic) in between
-      mode "abi"   by reference after an abi.Uint64 parameter."""
+      mode "abi"   by reference after an abi.Uint64 parameter.
+    ("dl", ty, id_or_None, mode): stored directly with an adjacent direct load (`store v; load v; pop`), read back
+      only through mode: the slot optimiser must leave the pair alone because v's index is taken."""
 
     def __init__(self, spec, index):
         self.spec = tuple(spec)
@@ -100,7 +102,7 @@ class Var:
         elif kind == "req":
             self.ty = self.spec[1]
             self.obj = pt.ScratchVar(pt.TealType.uint64 if self.ty == U else pt.TealType.bytes, self.spec[2])
-        elif kind == "ind":
+        elif kind in ("ind", "dl"):
             self.ty = self.spec[1]
             tt = pt.TealType.uint64 if self.ty == U else pt.TealType.bytes
             self.obj = pt.ScratchVar(tt) if self.spec[2] is None else pt.ScratchVar(tt, self.spec[2])
@@ -118,14 +120,20 @@ class Var:
         else:
             raise ValueError(kind)
         self.direct = kind in ("auto", "req")            # accessed with plain load/store; may be a DynamicScratchVar target
-        self.in_scratch = kind in ("auto", "req", "ind")
+        self.in_scratch = kind in ("auto", "req", "ind", "dl")
+        self.dl = (kind == "dl")
         self.is_scratchvar = self.direct
-        self.requested = self.spec[2] if kind in ("req", "ind") else None
+        self.requested = self.spec[2] if kind in ("req", "ind", "dl") else None
 
     def store(self, gen=0):
         e, _ = marker(self.index, self.ty, gen)
         if self.direct:
             return self.obj.store(e)
+        if self.dl:
+            # the ONLY direct accesses: a store immediately followed by a load (what the slot optimiser cancels when
+            # the slot is not protected); every later read goes through self.mode
+            extra = [self.other.store(self.pad)] if self.mode == "mix4" else []
+            return pt.Seq(*extra, self.obj.store(e), pt.Pop(self.obj.load()))
         if self.mode == "idx":
             return pt.ScratchStore(slot=None, value=e, index_expression=self.obj.index())
         if self.mode == "dyn":
@@ -267,10 +275,30 @@ def build(plan):
         sub_specs.append((base, s))
         counter[0] += len(s["vars"])
 
+    class Holder:
+        _info = None
+
+    def call_expr(si):
+        """The call of subroutine si with its arguments, checked against its result.
+        "ret": True (plain, uint64) | False (plain, none) | "abi" (ABIReturnSubroutine with an abi.Uint64 output)
+               | "abivoid" (ABIReturnSubroutine without output);  "args": 0 | 2 (by-value Expr parameters)."""
+        s = subs[si]
+        fn = sub_fns_by_index[si]
+        args = [pt.Int(3), pt.Int(4)][: s.get("args", 0)]
+        ret = s.get("ret", True)
+        if ret == "abi":
+            r = pt.abi.Uint64()
+            return pt.Seq(r.set(fn(*args)), pt.Assert(r.get() == pt.Int(500 + si)))
+        if ret is True:
+            return pt.Assert(fn(*args) == pt.Int(500 + si))
+        return fn(*args)
+
     def make_sub(si):
         base, s = sub_specs[si]
+        holder = Holder()
+        ret = s.get("ret", True)
 
-        def body():
+        def impl(params, output=None):
             vs = [Var(spec, base + k) for k, spec in enumerate(s["vars"])]
             ex, lg, rq, fin = section(vs, plan, "sub%d" % si)
             # split: stores first, then the nested call, then the read-back (all locals stay live across the call)
@@ -278,16 +306,38 @@ def build(plan):
             pre, post = ex[:nst], ex[nst:]
             call = []
             if plan.get("nest", True) and si + 1 < len(subs):
-                nxt = sub_fns_by_index[si + 1]
-                call = [pt.Assert(nxt() == pt.Int(500 + si + 1))] if subs[si + 1].get("ret", True) else [nxt()]
-            body._info = (lg, rq, fin)
-            tail = [pt.Return(pt.Int(500 + si))] if s.get("ret", True) else [pt.Return()]
+                call = [call_expr(si + 1)]
+            holder._info = (lg, rq, fin)
+            if output is not None:
+                tail = [output.set(pt.Int(500 + si))]
+            elif ret is True:
+                tail = [pt.Return(pt.Int(500 + si))]
+            else:
+                tail = [pt.Return()] if ret is False else []
+            argchk = [pt.Assert(params[0] + params[1] == pt.Int(7))] if len(params) == 2 else []
+            argchk2 = [pt.Assert(params[0] + params[1] == pt.Int(7))] if len(params) == 2 else []
             sh1 = [v.check(shared_gen[v.index]) for v in shared_vars]
             sh2 = [v.check(shared_gen[v.index]) for v in shared_vars]
-            return pt.Seq(*sh1, *pre, *call, *sh2, *post, *tail)
+            return pt.Seq(*argchk, *sh1, *pre, *call, *sh2, *post, *argchk2, *tail)
 
+        nargs = s.get("args", 0)
+        if ret == "abi":
+            if nargs == 2:
+                def body(a: pt.Expr, b: pt.Expr, *, output: pt.abi.Uint64):
+                    return impl([a, b], output)
+            else:
+                def body(*, output: pt.abi.Uint64):
+                    return impl([], output)
+        elif nargs == 2:
+            def body(a: pt.Expr, b: pt.Expr):
+                return impl([a, b])
+        else:
+            def body():
+                return impl([])
         body.__name__ = "c10_sub%d" % si
-        return pt.Subroutine(pt.TealType.uint64 if s.get("ret", True) else pt.TealType.none)(body), body
+        if ret in ("abi", "abivoid"):
+            return pt.ABIReturnSubroutine(body), holder
+        return pt.Subroutine(pt.TealType.uint64 if ret is True else pt.TealType.none)(body), holder
 
     sub_fns_by_index = {}
     bodies = {}
@@ -304,10 +354,7 @@ def build(plan):
     if subs:
         idxs = [0] if plan.get("nest", True) else list(range(len(subs)))
         for si in idxs:
-            if subs[si].get("ret", True):
-                calls.append(pt.Assert(sub_fns_by_index[si]() == pt.Int(500 + si)))
-            else:
-                calls.append(sub_fns_by_index[si]())
+            calls.append(call_expr(si))
     expr = pt.Seq(*pre, *calls, *post, pt.Approve())
     return expr, main_vars, (m_logs, m_req, m_fin), bodies, sub_specs
 
